@@ -63,17 +63,25 @@ pub(crate) fn read_data_block<T: Read + Seek>(
 ) -> Option<Vec<u8>> {
     buf.seek(SeekFrom::Start(starting_position)).ok()?;
 
-    let block_header = BlockHeader::read(&mut buf).unwrap();
+    let block_header = BlockHeader::read(&mut buf).ok()?;
 
     match block_header.compression {
         CompressionMode::Compressed {
             compressed_length,
             decompressed_length,
         } => {
-            let mut compressed_data: Vec<u8> = vec![0; compressed_length as usize];
+            // the lengths are signed in the file, and a deflate stream cannot expand by more
+            // than a factor of 1032: anything else is a damaged block, not a reason to allocate
+            let compressed_length = usize::try_from(compressed_length).ok()?;
+            let decompressed_length = usize::try_from(decompressed_length).ok()?;
+            if decompressed_length > compressed_length.saturating_mul(1032).saturating_add(1032) {
+                return None;
+            }
+
+            let mut compressed_data: Vec<u8> = vec![0; compressed_length];
             buf.read_exact(&mut compressed_data).ok()?;
 
-            let mut decompressed_data: Vec<u8> = vec![0; decompressed_length as usize];
+            let mut decompressed_data: Vec<u8> = vec![0; decompressed_length];
             if !no_header_decompress(&mut compressed_data, &mut decompressed_data) {
                 return None;
             }
@@ -81,8 +89,18 @@ pub(crate) fn read_data_block<T: Read + Seek>(
             Some(decompressed_data)
         }
         CompressionMode::Uncompressed { file_size } => {
-            let mut local_data: Vec<u8> = vec![0; file_size as usize];
-            buf.read_exact(&mut local_data).ok()?;
+            let file_size = usize::try_from(file_size).ok()?;
+
+            // read through take() so that memory grows with the data that is present, not
+            // with the size the block claims
+            let mut local_data: Vec<u8> = Vec::new();
+            buf.by_ref()
+                .take(file_size as u64)
+                .read_to_end(&mut local_data)
+                .ok()?;
+            if local_data.len() != file_size {
+                return None;
+            }
 
             Some(local_data)
         }
